@@ -11,6 +11,7 @@ import (
 	"os"
 	"os/exec"
 	"path/filepath"
+	"runtime"
 	"sort"
 	"strconv"
 	"strings"
@@ -40,6 +41,7 @@ type scenario struct {
 	Batches  int            `json:"batches"`
 	Phase2   int            `json:"batches_after_wipe_and_reopen,omitempty"`
 	FMerge   int            `json:"force_merge_every"`
+	Settle   bool           `json:"settle_rounds_before_close,omitempty"`
 	KV       map[string]any `json:"kvconfig"`
 }
 
@@ -179,6 +181,39 @@ func runScenario(r *ev.Run, dir string, sc scenario) {
 		}
 		if g.Chance(1, 3) {
 			time.Sleep(time.Duration(g.Intn(3000)) * time.Microsecond)
+		}
+	}
+	// settle scenarios: the list must not grow with the history. Every further persister round (driven by an empty
+	// batch whose persisted callback is awaited) purges whatever is eligible, so once the background work of the
+	// burst has drained at most numSnapshotsToKeep (+ the epoch superseded by the last round) snapshots remain.
+	// Counted in rounds, not in time.
+	if sc.Settle {
+		s := mon.ScorchOf(idx)
+		settled, left := -1, 0
+		for i := 0; i < 300 && s != nil; i++ {
+			if err := corpus.WaitPersisted(idx, corpus.Config{IndexType: "scorch", OnDisk: true}); err != nil {
+				fail("batch-error", nil, "", "settle round: "+err.Error())
+				return
+			}
+			eps, err := s.RootBoltSnapshotEpochs()
+			if err != nil {
+				fail("rollbackpoints-error", nil, "", err.Error())
+				return
+			}
+			left = len(eps)
+			if left <= sc.Keep+1 {
+				settled = i
+				break
+			}
+			runtime.Gosched()
+		}
+		if settled < 0 {
+			fail("retention-not-honoured/too-many-points", nil, "", fmt.Sprintf("numSnapshotsToKeep=%d, %d batches, no reader open: after 300 further persister rounds %d snapshots are still recorded", sc.Keep, sc.Batches, left))
+			return
+		}
+		r.Count("settle_scenarios", 1)
+		if settled > 2 {
+			r.Count("settle_scenarios_needing_more_than_3_rounds", 1)
 		}
 	}
 	// end with Close immediately after the burst, so that retained epochs differ in content
@@ -410,6 +445,9 @@ func run(r *ev.Run) {
 		}
 		if sc.Unsafe {
 			kv["unsafe_batch"] = true
+		}
+		if sc.Interval == "" && i%7 == 3 {
+			sc.Settle = true
 		}
 		if keep > 1 && i%2 == 1 && sc.Interval == "" {
 			sc.Phase2 = g.Range(2, 5)
